@@ -645,7 +645,8 @@ def run_families(chk, fams, tie):
 PROG_SIG = {k: v for k, v in METHODSET_SIG.items() if k != "pkgname"}
 SIG_CTOR = "C09 dispatch method-named-constructor-clobbers-dynamic-type"
 SIG_RECV = "C09 dispatch struct-value-receiver-shared-through-interface-or-method-value"
-PROG_SIG.update({"recvcopy": SIG_RECV, "ctorname": SIG_CTOR})
+# round 3: the receiver-copy defect was repaired in /repo (C07's commits); `recvcopy` programs must now agree with Go
+PROG_SIG.update({"ctorname": SIG_CTOR})
 
 
 def gen_program(rng, mode):
@@ -1042,8 +1043,6 @@ def run_programs(chk, tier):
                     labels.append(nat[0][len(js[0])].split(" ")[0])
                 if labels and all(l in tainted for l in labels):
                     sig = SIG_CTOR if (ctor_method and "is not a function" not in js[1]) else PROG_SIG[mode]
-            elif differing is not None and mode == "recvcopy":
-                sig = SIG_RECV
             elif differing is not None and mode in PROG_SIG and all(a.split(" ")[0] in tainted for a, b in differing):
                 sig = PROG_SIG[mode]
             desc = "ending js=%s native=%s" % (js[1], nat[1]) if differing is None else "; ".join("js[%s] go[%s]" % d for d in differing[:4])
